@@ -410,12 +410,12 @@ func ruleDispatchTables(c *eng.Ctx) {
 			}
 		}
 		var missing []string
-		for _, w := range []string{"Type1", "TrueType", "Type0"} {
+		for _, w := range []string{"Type1", "MMType1", "Type3", "TrueType", "Type0"} {
 			if !labels[w] {
 				missing = append(missing, w)
 			}
 		}
-		c.Check(len(missing) == 0, R, "text.(*Extractor).RegisterFontsFromResources#subtypes", fd.Decl.Pos(), "Type1, TrueType and Type0 fonts are registered", "font subtype(s) "+strings.Join(missing, ",")+" are no longer registered: their text decodes with the fallback font")
+		c.Check(len(missing) == 0, R, "text.(*Extractor).RegisterFontsFromResources#subtypes", fd.Decl.Pos(), "Type1, MMType1, Type3, TrueType and Type0 fonts are registered", "font subtype(s) "+strings.Join(missing, ",")+" are not registered: their text decodes with the fallback font, whatever their ToUnicode CMap and encoding say")
 	}
 	if fn := p.Func("core.(*Parser).parseStream"); fn == nil {
 		c.Undec(R, "core.(*Parser).parseStream", token.NoPos, "anchor not found")
